@@ -16,7 +16,7 @@ def job_for(contract, mode, inputs=None):
         'repo': REPO, 'verif': VERIF, 'target': contract.target, 'mode': mode,
         'params': dict(contract.params), 'requires': list(contract.requires),
         'ensures': list(contract.ensures), 'raises': contract.raises,
-        'spec_modules': contract.ghost.get('spec_modules', ['spec.core']),
+        'spec_modules': contract.ghost.get('spec_modules', ['spec.core', 'spec.repeat']),
         'search': contract.ghost.get('search', {}),
     }
     if contract.ghost.get('harness'):
